@@ -38,6 +38,24 @@ def verify(patch, demo):
         shutil.rmtree(d, ignore_errors=True)
 
 
+_SNAP = []
+
+
+def checker_dir():
+    """A private copy of the checker, taken once per run of this tool: the evaluation is not disturbed by edits made to
+    /verif/sa while it runs."""
+    if not _SNAP:
+        import atexit
+        d = tempfile.mkdtemp(prefix='verifsnap_')
+        shutil.copytree(os.path.join(VERIF, 'sa'), os.path.join(d, 'sa'), ignore=shutil.ignore_patterns('__pycache__'))
+        for f in ('vcheck', 'known_findings.json', 'claims.json', 'properties.jsonl'):
+            shutil.copy(os.path.join(VERIF, f), os.path.join(d, f))
+        os.makedirs(os.path.join(d, 'evidence'), exist_ok=True)
+        atexit.register(shutil.rmtree, d, True)
+        _SNAP.append(d)
+    return _SNAP[0]
+
+
 def evaluate(patch):
     d = scratch_repo()
     try:
@@ -48,7 +66,7 @@ def evaluate(patch):
         res = {}
 
         def one(pid):
-            c, o = run('%s ./vcheck %s --repo %s' % (env, pid, d), VERIF)
+            c, o = run('%s ./vcheck %s --repo %s' % (env, pid, d), checker_dir())
             first = ''
             for line in o.splitlines():
                 if line.startswith('  ') or line.startswith('ANALYSIS-ERROR'):
@@ -66,7 +84,7 @@ def evaluate(patch):
 def harvest(src):
     pid = os.path.basename(src.rstrip('/'))
     out = os.path.join(src, 'out')
-    for x in ('A', 'B', 'C', 'D', 'E', 'F', 'G', 'H'):
+    for x in ('A', 'B', 'C', 'D', 'E', 'F', 'G', 'H', 'I', 'J'):
         patch, demo, meta = (os.path.join(out, '%s%s' % (x, s)) for s in ('.diff', '_demo.py', '_meta.json'))
         if not (os.path.exists(patch) and os.path.exists(demo)):
             continue
@@ -128,7 +146,9 @@ def benign(src):
 
 def eval_benign():
     base = os.path.join(SEEDED, 'benign')
-    for n in sorted(os.listdir(base)):
+    checker_dir()
+
+    def one(n):
         patch = os.path.join(base, n, 'patch.diff')
         res = evaluate(patch)
         bad = {k: v for k, v in res.items() if v['exit'] != 0}
@@ -136,7 +156,10 @@ def eval_benign():
         m = json.load(open(mp)) if os.path.exists(mp) else {}
         m['checks_not_silent'] = bad
         json.dump(m, open(mp, 'w'), indent=1)
-        print(n, 'SILENT' if not bad else 'ALARM ' + ', '.join('%s(exit %d) %s' % (k, v['exit'], v['first'][:160]) for k, v in bad.items()))
+        return n, bad
+    with ThreadPoolExecutor(max_workers=int(os.environ.get('SEED_JOBS', '3'))) as ex:
+        for n, bad in ex.map(one, sorted(os.listdir(base))):
+            print(n, 'SILENT' if not bad else 'ALARM ' + ', '.join('%s(exit %d) %s' % (k, v['exit'], v['first'][:160]) for k, v in bad.items()), flush=True)
 
 
 def main():
@@ -152,23 +175,31 @@ def main():
     elif sys.argv[1] == 'eval':
         names = sys.argv[2:] or sorted(os.listdir(SEEDED))
         rows = []
-        for n in names:
+        checker_dir()
+
+        def one_seed(n):
             p = os.path.join(SEEDED, n, 'patch.diff')
             if not os.path.exists(p):
-                continue
+                return None
             res = evaluate(p)
             own = n.split('-')[0]
             det = [k for k, v in res.items() if v['exit'] == 1]
             und = [k for k, v in res.items() if v['exit'] == 2]
-            print('%-8s own=%s exit=%d | violated by: %s | undecided: %s' % (n, own, res[own]['exit'], ','.join(det) or '-', ','.join(und) or '-'))
-            if res[own]['exit'] == 1:
-                print('         ', res[own]['first'][:200])
             mp = os.path.join(SEEDED, n, 'meta.json')
             m = json.load(open(mp)) if os.path.exists(mp) else {}
             m['detection'] = {'own_property_exit': res[own]['exit'], 'violated': det, 'undecided': und,
                               'first_report': {k: res[k]['first'] for k in det + und}}
             json.dump(m, open(mp, 'w'), indent=1)
-            rows.append((n, res[own]['exit'], det, und))
+            return n, own, res, det, und
+        with ThreadPoolExecutor(max_workers=int(os.environ.get('SEED_JOBS', '3'))) as ex:
+            for r in ex.map(one_seed, names):
+                if r is None:
+                    continue
+                n, own, res, det, und = r
+                print('%-8s own=%s exit=%d | violated by: %s | undecided: %s' % (n, own, res[own]['exit'], ','.join(det) or '-', ','.join(und) or '-'), flush=True)
+                if res[own]['exit'] == 1:
+                    print('         ', res[own]['first'][:200], flush=True)
+                rows.append((n, res[own]['exit'], det, und))
         return rows
 
 
